@@ -127,6 +127,22 @@ pub fn gen(seed: u64, n: usize) -> Result<Vec<Value>> {
 			}
 		}
 	}
+	// a super type met first deep below the first branch and again as a later direct super type of the owner
+	// (O -> [A, B], A -> [X], X -> [B, Y]; B and Y both name the member): depth first and level by level both answer B
+	{
+		let node = |kind: &str, a: &str, b: &str, desc: &str, kids: Value| json!({"kind": kind, "names": [a, b], "desc": desc, "idx": 0, "doc": [], "kids": kids});
+		let cls = |n: &str, tag: &str| node("c", &format!("w/{n}"), &format!("v/{n}"), "", json!({
+			"m m ()V": node("m", "m", &format!("m{tag}"), "()V", json!({})), "f f I": node("f", "f", &format!("f{tag}"), "I", json!({}))}));
+		let m = json!({"ns": ["a", "b"], "doc": [], "kids": {"c w/B": cls("B", "B"), "c w/Y": cls("Y", "Y")}});
+		for sup in [json!({"w/O": ["w/A", "w/B"], "w/A": ["w/X"], "w/X": ["w/B", "w/Y"]}),
+				json!({"w/O": ["w/A", "w/B", "w/Y"], "w/A": ["w/X"], "w/X": ["w/Q", "w/B"], "w/Q": ["w/Y"]})] {
+			for (kind, name, desc) in [("m", "m", "()V"), ("f", "f", "I")] {
+				for owner in ["w/O", "w/A"] {
+					out.push(json!({"op": "member", "kind": kind, "M": m, "f": 1, "t": 2, "sup": sup, "owner": owner, "name": name, "desc": desc, "desc0": desc, "rt": false}));
+				}
+			}
+		}
+	}
 	while out.len() < n {
 		let nn = *pick(&mut r, &[2usize, 3, 3, 4]);
 		let cfg = TreeCfg { n: nn, classes: r.gen_range(1..10), p_missing: *pick(&mut r, &[0.0, 0.15, 0.4]), unicode: r.gen_bool(0.3), p_doc: 0.0, params: 0, ..TreeCfg::default() };
